@@ -10,6 +10,21 @@ FILES = ['f', 'd/g', 'd/h', 'e/i']
 NEWFILES = ['n', 'd/n', 'x/y/n']
 
 
+NONL = b'~NONL'   # a line token ending in this marker stands for a line without terminator (the last line of a file lacking its final newline)
+
+
+def eol(l):
+    """the bytes of line token l as they stand in a file"""
+    return l[:-len(NONL)] if l.endswith(NONL) else l + b'\n'
+
+
+def patch_line(tag, l):
+    """line token l as a line of a hunk"""
+    if l.endswith(NONL):
+        return tag.encode() + l[:-len(NONL)] + b'\n\\ No newline at end of file\n'
+    return tag.encode() + l + b'\n'
+
+
 class Model:
     def __init__(self):
         self.t = {}  # path -> (list of line tokens without newline, mode or None)
@@ -21,7 +36,7 @@ class Model:
 
     def files(self):
         """{path: (bytes, mode)} with default mode 0644"""
-        return {p: (b''.join(l + b'\n' for l in ls), 0o644 if mode is None else mode) for p, (ls, mode) in self.t.items()}
+        return {p: (b''.join(eol(l) for l in ls), 0o644 if mode is None else mode) for p, (ls, mode) in self.t.items()}
 
     def dirs(self):
         ds = set()
@@ -40,7 +55,8 @@ def initial(nlines=6, with_empty=False, with_spacey=False):
     for f in FILES:
         m.t[f] = ([('%s%d' % (f.replace('/', '_'), i)).encode() for i in range(nlines)], 0o644)
     # modes other than what a newly created file gets: preserving them is part of "the tree equals ..."
-    m.t['d/h'] = (m.t['d/h'][0], 0o755)
+    # ... and d/h lacks its final newline
+    m.t['d/h'] = (m.t['d/h'][0][:-1] + [m.t['d/h'][0][-1] + NONL], 0o755)
     m.t['e/i'] = (m.t['e/i'][0], 0o600)
     m.t['z'] = ([], 0o600)   # a zero-length file (it may be filled, or replaced by a rename; its mode is not the default one)
     if with_spacey:
@@ -77,7 +93,7 @@ class Hunk:
         oc, nc = len(self.old()), len(self.new())
         if not inverted:
             head = b'@@ -%d,%d +%d,%d @@\n' % (self.old_start, oc, self.new_start, nc)
-            body = b''.join(t.encode() + l + b'\n' for t, l in self.body)
+            body = b''.join(patch_line(t, l) for t, l in self.body)
         else:
             head = b'@@ -%d,%d +%d,%d @@\n' % (self.new_start, nc, self.old_start, oc)
             # swap roles; within a change group keep '-' lines before '+' lines
@@ -93,12 +109,12 @@ class Hunk:
                 else:
                     grp.append(('+' if t == '-' else '-', l))
             flush()
-            body = b''.join(t.encode() + l + b'\n' for t, l in out)
+            body = b''.join(patch_line(t, l) for t, l in out)
         return head + body
 
     def described(self, inverted=False):
         """what parse() must report for this hunk: (old_start0, old lines, new_start0, new lines), 0-based"""
-        o, n = [l + b'\n' for l in self.old()], [l + b'\n' for l in self.new()]
+        o, n = [eol(l) for l in self.old()], [eol(l) for l in self.new()]
         os_, ns = self.old_start, self.new_start
         o0 = os_ - 1 if o else os_
         n0 = ns - 1 if n else ns
